@@ -285,7 +285,29 @@ class RawSession:
             sig = key.sign_ssh_data(blob, sigalgo).asbytes()
             if alter == "sigbytes":
                 sig = sig[:-1] + bytes([sig[-1] ^ 0x01])
+            elif alter in ("sig-short", "sig-long", "sig-empty", "sig-negative"):
+                # structurally malformed signature blob: string name, string raw
+                nlen = struct.unpack_from(">I", sig, 0)[0]
+                name = sig[4:4 + nlen]
+                raw = sig[8 + nlen:]
+                if alter == "sig-short":
+                    raw = raw[:-1]
+                elif alter == "sig-long":
+                    raw = raw + b"\x00"
+                elif alter == "sig-empty":
+                    raw = b""
+                else:       # first inner integer made negative (ECDSA r) / top bit set
+                    raw = (raw[:4] + bytes([raw[4] | 0x80]) + raw[5:]) if len(raw) > 5 else b"\x80"
+                sig = sstr(name) + sstr(raw)
             valid = alter is None
+        # ground truth: does the signature that is SENT verify, independently of paramiko, over the
+        # blob built from THIS session's id and exactly the fields that are sent?
+        from .kexoracle import verify_sig, parse_sig
+        try:
+            ok, _, sname = verify_sig(keyblob, sig, self.pk_blob(user, service, algo, keyblob))
+            valid = bool(ok) and sname == algo.replace("-cert-v01@openssh.com", "")
+        except Exception:
+            valid = False
         d = self._req(user, service, "publickey", b"\x01" + sstr(algo) + sstr(keyblob) + sstr(sig),
                       probe=False, valid_sig=valid, alter=alter, foreign=foreign_sig is not None, algo=algo)
         d["sig"] = sig
